@@ -352,3 +352,7 @@ LEVEL_TEXT = ("SMT over the MIR of every generated reader: compatible verificati
               "Kani for five small types at byte level; SMT for hand-written accessors/guards. Two accessor-level panics on decodable values are reported as known findings.")
 LEVEL_NOTE = "Claim: generated accessors of every schema type + hand-written extension()/frame guard. Reconstruction, view conversions, snappy itself are outside."
 TECHNIQUE = "Kani/CBMC harnesses generated from the molecule schema + symbolic execution of rustc MIR -> SMT"
+
+# ---- extended claim (session 3)
+BOUNDS = dict(BOUNDS, m6="BlockTransactions reply guards: 0..2 requested indexes, 0..3 reply items, membership and hash equalities symbolic")
+LEVEL_TEXT = LEVEL_TEXT + " m6: BlockUnclesVerifier / BlockTransactionsVerifier accept a reply only with exactly as many items as requested-and-found and matching hashes in order (precondition of reconstruct_block's indexing; found and repaired a missing `return`)."
